@@ -7,7 +7,7 @@ from harness.replace_e2e import *
 
 PROPERTY = 'C08'
 LEVEL = 'model_checking'
-FUNCTIONS = ['mofun.mofun.replace_pattern_in_structure', 'mofun.mofun.find_pattern_in_structure', 'mofun.atoms.find_unchanged_atom_pairs',
+FUNCTIONS = ['mofun.atoms.Atoms.extend.find_existing_topo', 'mofun.mofun.replace_pattern_in_structure', 'mofun.mofun.find_pattern_in_structure', 'mofun.atoms.find_unchanged_atom_pairs',
              'mofun.atoms.Atoms.extend', 'mofun.atoms.Atoms.extend_types', 'mofun.atoms.Atoms.__delitem__']
 BOUNDS = {'quick': '8 planted structures (<=12 atoms) with bonds/angles/dihedrals/impropers, 7 identity pattern pairs (asymmetric, planar, '
                    'collinear, symmetric), 3 A->B->A chains (H/F sites, C-H/C-F pairs, 4-atom groups), one symbolic shift axis, ortho + triclinic cells',
@@ -49,7 +49,62 @@ def instances(tier, seed):
     for sname, r1, r2, ax in aba:
         for a in ([ax] if tier == 'quick' or sname in ('S5',) else [0, 1, 2]):
             add(f"aba:{sname}:{r1}:{r2}:axis{a}", struct=sname, repl=r1, repl2=r2, axes=[a], other=(0.8, 0.15, 0.5), mode='aba', cost=60)
+    # bookkeeping world (find stub, symbolic match tuple and symbolic end points of one further structure bond in either storage direction):
+    # the pattern brings its own bonds and angle, the structure already has them on the matched atoms
+    add("self-f1:CHH->CHH:N4:free-bond", family='self-f1', pattern='CHH->CHH', N=4, M=1, cost=60)
+    if tier == 'thorough':
+        add("self-f1:CHH->CHH:N5:free-bond", family='self-f1', pattern='CHH->CHH', N=5, M=1, cost=600)
     return out
+
+
+def self_f1_body(ctx, p):
+    """identity replacement through the bookkeeping half (extend_types / extend with identity map / bulk delete), match found by the
+    contract stub: nothing about the structure may change - atoms, and the SET of bonded / angled tuples (up to direction)"""
+    from harness import replace_f1 as F1
+    from harness.common import COUNT, KINDS
+    q = dict(p, terms={'bond': 3, 'angle': 1}, s_rows={'bond': 2, 'angle': 2}, s_pair=True)
+    pre = {}
+
+    def pin(ctx_, sp, idx):
+        # the structure's first two bonds and its angle are the pattern's own terms on the matched atoms (the third bond is free)
+        m = idx[0]
+        (b0, _), (b1, _), _free = sp.terms['bond']
+        (a0, _), = sp.terms['angle']
+        ctx_.assume(AND(EQ(b0[0], m[0]), EQ(b0[1], m[1]), EQ(b1[0], m[2]), EQ(b1[1], m[0])))
+        ctx_.assume(AND(EQ(a0[0], m[1]), EQ(a0[1], m[0]), EQ(a0[2], m[2])))
+        fr = sp.terms['bond'][2][0]
+        # the free bond is a real bond: two different atoms, not one of the two pattern bonds again
+        ctx_.assume(fr[0] != fr[1])
+        for (x, y) in ((m[0], m[1]), (m[0], m[2])):
+            ctx_.assume(NOT(OR(AND(EQ(fr[0], x), EQ(fr[1], y)), AND(EQ(fr[0], y), EQ(fr[1], x)))))
+    q['after_matches'] = pin
+    R = F1.run_replace(ctx, q)
+    if R['raised'] is not None or R['result'] is None:
+        ctx.fail('self-replacement returns a structure', detail=dict(raised=R['raised']))
+        return
+    res, sp = R['result'], R['sp']
+    rs = F1.spec_from_state(res)
+    if not ctx.require('atom count unchanged', rs.N == sp.N and F1.lengths_consistent(res), detail=dict(n=rs.N)):
+        return
+    with core.nosimplify():
+        for i in range(sp.N):
+            ctx.require('every atom keeps its position, charge and group',
+                        AND(*[EQ(rs.pos[i][c], sp.pos[i][c]) for c in range(3)], EQ(rs.charges[i], sp.charges[i]), EQ(rs.groups[i], sp.groups[i])),
+                        detail=dict(atom=i))
+            ctx.require('every atom keeps its element', F1.resolves_to(rs.tables['atom']['elements'], rs.types[i], sp.tables['atom']['elements'], sp.types[i]),
+                        detail=dict(atom=i))
+        for kind, ar in (('bond', 2), ('angle', 3)):
+            before, after = sp.terms[kind], rs.terms[kind]
+
+            def same(t1, t2):
+                return OR(AND(*[EQ(t1[c], t2[c]) for c in range(ar)]), AND(*[EQ(t1[c], t2[ar - 1 - c]) for c in range(ar)]))
+            ctx.observe(f'n_{kind}', len(after))
+            for j, (e, _) in enumerate(before):
+                ctx.require(f'every {kind}ed tuple of the structure is still there after self-replacement',
+                            OR(*[same(e, e2) for e2, _ in after]), detail=dict(kind=kind, term=j, n_after=len(after)))
+            for j, (e2, _) in enumerate(after):
+                ctx.require(f'no {kind}ed tuple appears that was not there before', OR(*[same(e, e2) for e, _ in before]), detail=dict(kind=kind, row=j))
+            ctx.require(f'number of {kind}s unchanged', len(after) == len(before), detail=dict(n=len(after)))
 
 
 def tuple_sets(a):
@@ -57,6 +112,8 @@ def tuple_sets(a):
 
 
 def body(ctx, p):
+    if p.get('family') == 'self-f1':
+        return self_f1_body(ctx, p)
     R = run_e2e(ctx, p)
     st, res = R['st'], R['res']
     N = len(R['els'])
